@@ -355,6 +355,12 @@ def validate(rc):
             rc.fail(g, r, "the validity test must not modify the CPD", construct="purity")
 
 
+
+@rule("C05.defuse", "anchored files: every parameter is read, no value is computed and dropped (generic def-use detectors, triaged hit list)", floor=2)
+def defuse(rc):
+    from . import shared as _sh
+    _sh.defuse_rule(rc, _sh.anchor_files("C05"))
+
 MUTANTS = [
     dict(kind="break", name="ctor-fortran-flatten", file=CPD, expect="C05.layout",
          old="variables, cardinality, values.flatten(), state_names=state_names", new="variables, cardinality, values.flatten(\"F\"), state_names=state_names"),
